@@ -28,14 +28,28 @@ DRIVERS["D10"] = dict(
     script=[[("send", "A", "u", C.pay("u", 0, 2500)), ("send", "A", "u", C.pay("u", 1, 10)),
              ("send", "A", "u", C.pay("u", 2, 2500, text=True)), ("send", "A", "u", "")]],
 )
+# a reliable channel next to a partially reliable one: abandoning messages there must not touch the reliable one
+DRIVERS["D11"] = dict(
+    setup="settled",
+    channels=[C.chan("R", negotiated=0), C.chan("P", negotiated=1, maxRetransmits=0), C.chan("U", negotiated=2, ordered=False)],
+    script=[[("send", "A", "R", C.pay("R", 0, 100)), ("send", "A", "P", C.pay("P", 0, 1300)),
+             ("send", "A", "R", C.pay("R", 1, 100, text=True)), ("send", "A", "U", C.pay("U", 0, 100)),
+             ("send", "A", "P", C.pay("P", 1, 100)), ("send", "A", "R", C.pay("R", 2, 1300))]],
+)
+# stream sequence numbers about to wrap (the state after 65534 messages on the channel)
+DRIVERS["D12"] = dict(
+    setup="settled", sseq={"w": 65534},
+    channels=[C.chan("w", negotiated=0)],
+    script=[[("send", "A", "w", C.pay("w", i, 100 if i != 1 else 1300)) for i in range(4)]],
+)
 
 
 def scenario(name):
     return C.make_factory(DRIVERS[name]), C.SctpOracle(safety=True, liveness=False), C.default_signature
 
 
-QUICK = [("D1", 2), ("D2", 2), ("D3", 2), ("D4", 2), ("D5", 2), ("D8", 1), ("D9", 1), ("D10", 2)]
-THOROUGH = [("D1", 2), ("D2", 3), ("D3", 3), ("D4", 4), ("D5", 3), ("D8", 2), ("D9", 2), ("D10", 3)]
+QUICK = [("D1", 2), ("D2", 2), ("D3", 2), ("D4", 2), ("D5", 2), ("D8", 1), ("D9", 1), ("D10", 2), ("D11", 2), ("D12", 2)]
+THOROUGH = [("D1", 2), ("D2", 3), ("D3", 3), ("D4", 4), ("D5", 3), ("D8", 2), ("D9", 2), ("D10", 3), ("D11", 3), ("D12", 3)]
 
 
 def run(tier, seed):
